@@ -40,11 +40,20 @@ Watchdog::Watchdog(long csecs,
             Implementation::Watchdog::Handler_Flag<Flag_Base, Flag>(holder,
                                                                     flag)) {
   if (csecs == 0) {
+    // The destructor will not be run: release the handler here.
+    delete &handler;
     throw std::invalid_argument("Watchdog constructor called with a"
                                 " non-positive number of centiseconds");
   }
   in_critical_section = true;
-  pending_position = new_watchdog_event(csecs, handler, expired);
+  try {
+    pending_position = new_watchdog_event(csecs, handler, expired);
+  }
+  catch (...) {
+    in_critical_section = false;
+    delete &handler;
+    throw;
+  }
   in_critical_section = false;
 }
 
@@ -53,11 +62,20 @@ Watchdog::Watchdog(long csecs, void (* const function)())
   : expired(false),
     handler(*new Implementation::Watchdog::Handler_Function(function)) {
   if (csecs == 0) {
+    // The destructor will not be run: release the handler here.
+    delete &handler;
     throw std::invalid_argument("Watchdog constructor called with a"
                                 " non-positive number of centiseconds");
   }
   in_critical_section = true;
-  pending_position = new_watchdog_event(csecs, handler, expired);
+  try {
+    pending_position = new_watchdog_event(csecs, handler, expired);
+  }
+  catch (...) {
+    in_critical_section = false;
+    delete &handler;
+    throw;
+  }
   in_critical_section = false;
 }
 
